@@ -432,7 +432,7 @@ pub fn run_c11(tier: &'static str) -> i32 {
 // C12
 
 fn bound_values() -> Vec<f64> {
-    vec![f64::NEG_INFINITY, -5.0, -PI, -1.0, 0.0, 1.0, PI, 5.0, f64::INFINITY, f64::NAN]
+    vec![f64::NEG_INFINITY, -5.0, -PI, -1.0, 0.0, 1.0, PI, 5.0, f64::INFINITY, f64::NAN, -0.0, 1e-300, -1e-300, f64::MIN_POSITIVE, 1e308, -1e308, f64::MAX, f64::MIN]
 }
 
 fn wf_box(stored: &[(f64, f64)], dim: usize) -> Result<(), String> {
@@ -478,14 +478,28 @@ fn usable<K: Kit>(sp: &K::SP, spec_like: &Spec, bounded: bool) -> Result<(), Str
         }
     }
     if bounded {
+        // a narrow cone around a non-identity centre is not reachable by a scripted word stream
+        // without assuming the word-to-coordinate mapping (see c11_sample)
+        if let Spec::So3 { bounds: Some((c, r)), .. } = spec_like {
+            if *c != [0.0, 0.0, 0.0, 1.0] && *r < 0.5 {
+                return Ok(());
+            }
+        }
+        let tail = accept_tail(spec_like);
         for w in [0u64, u64::MAX, word_for_unit(0.5), word_for_unit(0.25)] {
             let r = guarded(|| {
-                let mut rng = WordRng::new(vec![w, w, w, word_for_unit(0.6), word_for_unit(0.55), word_for_unit(0.52), word_for_unit(0.75)]);
-                rng.cap = 4096;
+                let mut words = vec![w; 4];
+                words.extend_from_slice(&tail);
+                words.extend((0..16384u64).map(crate::rngseam::mix));
+                let mut rng = WordRng::new(words);
+                rng.cap = 16000;
                 sp.sample_uniform(&mut rng).is_ok()
             });
-            if let Err(c) = r {
-                return Err(format!("sample_uniform unwound: {}", pmsg(c)));
+            match r {
+                // the scripted words ran out: the harness cannot decide this case (never a verdict)
+                Err(Caught::Harness(_)) => {}
+                Err(c) => return Err(format!("sample_uniform unwound: {}", pmsg(c))),
+                Ok(_) => {}
             }
         }
     }
@@ -578,7 +592,7 @@ fn c12_rv(rep: &mut Report) {
 
 fn c12_so2(rep: &mut Report) {
     let mut vals = bound_values();
-    vals.extend([4.0, -4.0, 3.0, -3.0, next_up(PI), next_down(-PI)]);
+    vals.extend([4.0, -4.0, 3.0, -3.0, next_up(PI), next_down(-PI), next_down(PI), next_up(-PI), 2.0 * PI, -2.0 * PI, 3.0 * PI, 0.5, -0.5]);
     for &l in &vals {
         for &u in &vals {
             rep.count("evaluations", 1);
@@ -626,8 +640,10 @@ fn c12_so2(rep: &mut Report) {
 fn c12_so3(rep: &mut Report) {
     let id = [0.0, 0.0, 0.0, 1.0];
     let rx = crate::catalog::quat_axis_angle([1.0, 0.0, 0.0], 90.0);
-    for c in [id, rx] {
-        for r in [-1.0, -0.0, 0.0, 1e-10, 1.0, PI, 4.0, f64::INFINITY, f64::NEG_INFINITY, f64::NAN, -1e-300] {
+    let diag = crate::catalog::quat_axis_angle([1.0, 1.0, 0.3], 130.0);
+    let neg_id = [0.0, 0.0, 0.0, -1.0];
+    for c in [id, rx, diag, neg_id] {
+        for r in [-1.0, -0.0, 0.0, 1e-10, 1.0, PI, 4.0, f64::INFINITY, f64::NEG_INFINITY, f64::NAN, -1e-300, 1e-300, 0.5, 2.0, 3.0, next_up(PI), next_down(PI), PI / 2.0, f64::MAX, -f64::MIN_POSITIVE] {
             rep.count("evaluations", 1);
             let det = json!({"centre": format!("{c:?}"), "radius": format!("{r}")});
             match guarded(|| SO3StateSpace::new(Some((crate::kit::so3_of(&c), r)))) {
@@ -661,7 +677,17 @@ fn c12_so3(rep: &mut Report) {
 }
 
 fn c12_se(rep: &mut Report) {
-    let pair_cases: Vec<(f64, f64)> = vec![(0.0, 1.0), (1.0, 0.0), (0.0, 0.0), (f64::NAN, 1.0), (0.0, f64::INFINITY), (4.0, 5.0), (-4.0, 4.0), (-1.0, 2.5)];
+    let mut pair_cases: Vec<(f64, f64)> = vec![(0.0, 1.0), (1.0, 0.0), (0.0, 0.0), (f64::NAN, 1.0), (0.0, f64::INFINITY), (4.0, 5.0), (-4.0, 4.0), (-1.0, 2.5)];
+    // every ordered pair of the SO(2) value lattice as well (the yaw bound of SE(2) goes through SO2StateSpace::new)
+    let mut vals = bound_values();
+    vals.extend([4.0, -4.0, 3.0, -3.0, next_up(PI), next_down(-PI), 2.0 * PI, -2.0 * PI]);
+    for &l in &vals {
+        for &u in &vals {
+            if !pair_cases.iter().any(|(a, b)| a.to_bits() == l.to_bits() && b.to_bits() == u.to_bits()) {
+                pair_cases.push((l, u));
+            }
+        }
+    }
     for n in 0..=4usize {
         for pc in &pair_cases {
             for pos in 0..n.max(1) {
@@ -731,6 +757,23 @@ fn c12_states(rep: &mut Report) {
         for m in [1.0, -1.0, 3.7, -2.9] {
             angles.push(m * 10f64.powi(e));
         }
+    }
+    // multiples of pi/2 (odd multiples of pi sit exactly on the seam) and their floating-point neighbours
+    for k in -4096i64..=4096 {
+        let x = k as f64 * (PI / 2.0);
+        angles.push(x);
+        if k.abs() <= 128 || k % 97 == 0 {
+            angles.push(next_up(x));
+            angles.push(next_down(x));
+        }
+    }
+    for k in (4097i64..2_000_000).step_by(4099) {
+        angles.push(k as f64 * PI);
+        angles.push(-(k as f64) * PI);
+    }
+    for e in 0..1023 {
+        angles.push(2f64.powi(e));
+        angles.push(-(2f64.powi(e)) * 1.0000000000000002);
     }
     for &a in &angles {
         rep.count("evaluations", 2);
